@@ -252,13 +252,17 @@ func runC29(c *Ctx) {
 			for k := 0; k < callsPer[i]; k++ {
 				rc := &rollCall{task: fmt.Sprintf("dial%d", i)}
 				simrt.Yield()
+				// the invocation stamp is taken in the same critical section as the read of the
+				// working ID: Unlock is a scheduling point, so a stamp taken after it would put a
+				// Dial of another task that stored a new working ID and returned in between
+				// entirely before this call, and the overlap rule below would not see it
 				r.HelloIDMu.Lock()
 				if r.WorkingHelloID != nil {
 					v := *r.WorkingHelloID
 					rc.startWork = &v
 				}
-				r.HelloIDMu.Unlock()
 				rc.invoke = Stamp()
+				r.HelloIDMu.Unlock()
 				u, err := r.Dial("tcp", "srv.test:443", "example.test")
 				rc.ret = Stamp()
 				rc.retAt = w.Now()
@@ -269,8 +273,8 @@ func runC29(c *Ctx) {
 					v := *r.WorkingHelloID
 					rc.workAfter = &v
 				}
-				r.HelloIDMu.Unlock()
 				rc.after = Stamp()
+				r.HelloIDMu.Unlock()
 				if u != nil {
 					rc.connID = u.ClientHelloID
 					msg := []byte("ping-" + rc.task)
